@@ -292,7 +292,10 @@ def write_evidence(prop, tier, seed, mod, results, violations, kf_hit, wall, onl
         wall_s=round(wall, 2),
         violations=len(violations),
     )
-    path = os.path.join(VERIF, 'evidence', '%s.json' % prop)
+    # runs against a seeded (deliberately broken) tree must not overwrite the evidence of the real tree
+    evdir = os.environ.get('VERIF_EVIDENCE_DIR') or os.path.join(VERIF, 'evidence')
+    os.makedirs(evdir, exist_ok=True)
+    path = os.path.join(evdir, '%s.json' % prop)
     with open(path + '.tmp', 'w') as f:
         json.dump(ev, f, indent=1, sort_keys=True)
     os.replace(path + '.tmp', path)
